@@ -117,6 +117,9 @@ class SplineMethod(SamplingMethod):
                 e = edge[1]
                 chain.append(edge[2]["weight"])
                 assert edge[2]["weight"]==1.0
+            # The lowest member of a chain is a free input: it must be a control, not a state with zero derivative
+            if chain[-1]<stage.nx:
+                raise Exception("States with a zero derivative are not supported in SplineMethod")
             chains.append(chain)
 
         """
